@@ -13,7 +13,8 @@ Variable entries : xml -> mentries.
 Variable kids : xml -> list kid.
 Variable mime : bytes -> mtype.
 Variable rdf0 : bytes.
-Variable mask : xml -> xml.
+Variable proj : Type.
+Variable mask : xml -> proj.
 Hypothesis par_ser : forall x, par (ser x) = x.
 Hypothesis mask_stamp : forall x, mask (stamp x) = mask x.
 Notation container := (container bytes).
@@ -25,8 +26,8 @@ Notation dB := (dB xml bytes kid).
 Notation dX := (dX xml bytes kid par).
 Notation WFd := (WFd xml bytes kid).
 Notation d_tree := (d_tree xml bytes kid par FIXED).
-Notation view := (view xml bytes kid par mask).
-Notation file_view := (file_view xml bytes kid par mask).
+Notation view := (view xml bytes kid par proj mask).
+Notation file_view := (file_view xml bytes kid par proj mask).
 Notation d_save := (d_save xml bytes kid ser par pretty stamp entries kids mime rdf0 FIXED).
 Notation ser_loop := (ser_loop xml bytes kid ser par pretty FIXED).
 Notation check_rdf := (check_rdf xml bytes kid par entries rdf0 FIXED).
@@ -167,6 +168,6 @@ Theorem roundtrip : forall fs (d : document) t pk pty fs' d' c,
 Proof.
   intros fs d t pk pty fs' d' c W Hpk Hm Hs Ho n.
   rewrite (open_path_view fs' (tgt_id t) c Ho).
-  apply (save_file_is_memory xml bytes kid ser par pretty stamp entries kids mime rdf0 mask par_ser fs d t pk pty fs' d' W Hpk Hm Hs).
+  apply (save_file_is_memory xml bytes kid ser par pretty stamp entries kids mime rdf0 proj mask par_ser fs d t pk pty fs' d' W Hpk Hm Hs).
 Qed.
 End S5.
